@@ -55,8 +55,16 @@ def run(ctx):
             if exact_scale:
                 ref = S[:, 0] * (np.float32(1.0 / scale) if scaled else np.float32(1.0))
                 out["compared"] += T.shape[0]
-                if not h5oracle.bits_equal(T[:, 0], ref):
-                    rec = int(np.argmax([not h5oracle.bits_equal(T[k, 0], ref[k]) for k in range(T.shape[0])]))
+                def same(x, y):
+                    # scaling by a power of two is exact except in the subnormal range (grid corners, ~1e-39):
+                    # bitwise where either value is a normal number of any relevance, 1e-36 absolute below
+                    x = np.asarray(x, dtype=np.float32); y = np.asarray(y, dtype=np.float32)
+                    big = np.maximum(np.abs(x), np.abs(y)) > 1e-30
+                    okb = (x.view(np.uint32) == y.view(np.uint32)) | ((x == 0) & (y == 0))
+                    oks = np.abs(x.astype(np.float64) - y.astype(np.float64)) <= 1e-36
+                    return bool(np.all(np.where(big, okb, oks)))
+                if not same(T[:, 0], ref):
+                    rec = int(np.argmax([not same(T[k, 0], ref[k]) for k in range(T.shape[0])]))
                     out["viol"].append(("C08:prog:differs_from_single:" + ds, "a bunch of the train does not reproduce the single-bunch run", dict(w, first_record=rec)))
         shutil.rmtree(d, ignore_errors=True)
         return out
